@@ -29,17 +29,45 @@ theorem flatMap_len_le {α : Type} (f : α → Bytes) (l : List α) (k : Nat) (h
     simp only [List.flatMap_cons, List.length_append, List.length_cons, Nat.add_mul]
     omega
 
-theorem handler_names {hn : List Spec.Name} {sF : St} {hs : List Handler} {hcs : List HCode} (h : All2 (HandlerOK hn sF) hs hcs) :
+theorem fragScript_spec' (s : Spec.Script) (hf : FragScript s = true) : s.factory = [] ∧ ∀ h ∈ s.handlers, FragH s h = true := by
+  simp only [FragScript, Bool.and_eq_true, List.all_eq_true, List.isEmpty_iff] at hf
+  exact ⟨hf.1.1.1, hf.2⟩
+
+theorem handler_names {B : Handler → Nat → Nat → List Node → Prop} {hn sg : List Spec.Name} {sF : St} {hs : List Handler} {hcs : List HCode}
+    (h : All2 (HandlerOKg B hn sg sF) hs hcs) :
     NamesAt sF.names (hcs.map (·.nameIdx)) (hs.map (·.name)) := by
   induction h with
   | nil => exact All2.nil
   | cons hx _ ih => exact All2.cons hx.ni ih
 
-/-- **bytes → tree**: on the fragment, the model parses what `compile` lays out into a tree related to the source script -/
-theorem parse_link (o : Options) (s : Spec.Script) (c : Compiled) (hf : FragScript s = true) (hcmp : compile o s = .ok c)
+/-- the parsed script, with the flow passes' result described by `F` -/
+structure ScriptRelg (F : Handler → List Node → Prop) (s : Spec.Script) (t : Lscr.Script) : Prop where
+  props : t.properties = s.props
+  globs : t.globalVars = s.globals
+  fac : t.factoryName = []
+  funcs : All2 (FuncRelg F s.globals) s.handlers t.functions
+
+theorem ScriptRelg.toScriptRel {s : Spec.Script} {t : Lscr.Script} (r : ScriptRelg (F₀ (s.handlers.map (·.name))) s t) : ScriptRel s t := by
+  refine ⟨r.props, r.globs, r.fac, ?_⟩
+  have := r.funcs
+  generalize s.handlers.map (·.name) = hn at this
+  generalize s.handlers = hs at this
+  generalize t.functions = fs at this
+  induction this with
+  | nil => exact All2.nil
+  | cons hr _ ih => exact All2.cons hr.toFuncRel ih
+
+/-- **bytes → tree**, parametric in the semantics of handler bodies (`BodyRun`) and of the flow passes (`FlowOk`): plain scripts
+    whose handlers are `on` handlers using only script-level globals / properties -/
+theorem parse_linkg (B : Handler → Nat → Nat → List Node → Prop) (F : Handler → List Node → Prop)
+    (o : Options) (s : Spec.Script) (c : Compiled) (hfac : s.factory = [])
+    (hHs : ∀ h ∈ s.handlers, BodyRun B (s.handlers.map (·.name)) h ∧ FlowOk B F h ∧ h.isMethod = false ∧
+      (∀ v ∈ Stmt.varsList .prop h.body, v ∈ s.props))
+    (hcmp : compile o s = .ok c)
     (hasc : ∀ n ∈ c.names, asciiName n = true) (hlen : c.names.length < 32768) :
-    ∃ t, Lscr.parseScript c.lscr c.lnam = .ok t ∧ ScriptRel s t ∧ t.scrNum = toSigned 16 (o.scrNum % 65536) := by
-  obtain ⟨propIdx, globIdx, hcs, sF, hlscr, hlnam, hnames, hP, hG, hH, hgood, hsz, hnl⟩ := compile_inv o s c hf hcmp
+    ∃ t, Lscr.parseScript c.lscr c.lnam = .ok t ∧ ScriptRelg F s t ∧ t.scrNum = toSigned 16 (o.scrNum % 65536) := by
+  obtain ⟨propIdx, globIdx, hcs, sF, hlscr, hlnam, hnames, hP, hG, hH, hgood, hsz, hnl⟩ := compile_invg B o s c hfac
+    (fun h hh => ⟨(hHs h hh).1, (hHs h hh).2.2.1⟩) hcmp
   let L : Lay := Lay.mk (o.scrNum % 65536) 0xffff propIdx globIdx hcs sF.consts
   have hL : L = Lay.mk (o.scrNum % 65536) 0xffff propIdx globIdx hcs sF.consts := rfl
   rw [← hL] at hlscr hsz
@@ -56,15 +84,9 @@ theorem parse_link (o : Options) (s : Spec.Script) (c : Compiled) (hf : FragScri
     omega
   -- sizes
   have hsize : L.bytes.length = L.size := L.bytes_length
-  have hcr : L.crecs = sF.consts.flatMap crec := by
-    show (constRecords sF.consts 0).1 = _
-    rw [constRecords_good _ _ hgood]
-  have hcd : L.cdata = [] := by
-    show (constRecords sF.consts 0).2 = _
-    rw [constRecords_good _ _ hgood]
   have hrl : L.records.length = 42 * hcs.length := handlerBlocks_snd_length hcs 92
   have hcl : L.crecs.length = 6 * sF.consts.length := constRecords_fst_length _ _
-  have hszs : L.size = L.conOff + 0 := by simp [Lay.size, hcd]
+  have hszs : L.size = L.conOff + L.cdata.length := rfl
   have hconOff : L.conOff = L.crbOff + 6 * sF.consts.length := rfl
   have hcrbOff : L.crbOff = L.frbOff + L.records.length := rfl
   have hfrbOff : L.frbOff = L.grbOff + 2 * globIdx.length := rfl
@@ -81,7 +103,7 @@ theorem parse_link (o : Options) (s : Spec.Script) (c : Compiled) (hf : FragScri
     have hm : o.scrNum % 65536 < 65536 := Nat.mod_lt _ (by omega)
     rcases hfm with hfm | hfm | hfm | hfm | hfm | hfm | hfm | hfm | hfm | hfm | hfm | hfm | hfm | hfm | hfm | hfm | hfm | hfm | hfm | hfm
       | hfm | hfm | hfm | hfm | hfm | hfm | hfm | hfm | hfm | hfm | hfm | hfm | hfm <;> subst hfm <;>
-      first | (left; refine ⟨rfl, ?_⟩; simp only [hcd, List.length_nil, hLf, hLg, hLh, hLc]; omega) | (right; refine ⟨rfl, ?_⟩; simp only; omega)
+      first | (left; refine ⟨rfl, ?_⟩; simp only [hLf, hLg, hLh, hLc]; omega) | (right; refine ⟨rfl, ?_⟩; simp only; omega)
   have hhdr := parseHeader_ok L.bytes L.size (o.scrNum % 65536) 0xffff L.prbOff globIdx.length L.grbOff hcs.length L.frbOff
     sF.consts.length L.crbOff L.cdata.length L.conOff L.at_header hok hsize (by omega)
   have t1 : toSigned 16 L.prbOff = (L.prbOff : Int) := toSigned16_small _ (by omega)
@@ -93,7 +115,7 @@ theorem parse_link (o : Options) (s : Spec.Script) (c : Compiled) (hf : FragScri
   have t7 : toSigned 16 sF.consts.length = (sF.consts.length : Int) := toSigned16_small _ (by omega)
   have t8 : toSigned 16 0xffff = -1 := by decide
   -- constants, names tables, handler names
-  have hcrb := parseCrb_good L.bytes sF.consts L.crbOff (L.conOff : Int) hgood (by rw [← hcr]; exact L.at_crecs)
+  have hcrb := parseCrb_good L.bytes sF.consts L.crbOff L.conOff hgood L.at_crecs L.at_cdata (by omega)
   have hprops := names_of_tables L.bytes sF.names propIdx s.props L.prbOff L.grbOff hP L.at_props hgrbOff
   have hglobs := names_of_tables L.bytes sF.names globIdx s.globals L.grbOff L.frbOff hG L.at_globs hfrbOff
   have hnmAt : NamesAt sF.names (hcs.map (·.nameIdx)) (s.handlers.map (·.name)) := handler_names hH
@@ -132,13 +154,11 @@ theorem parse_link (o : Options) (s : Spec.Script) (c : Compiled) (hf : FragScri
   -- the function records
   obtain ⟨ctx0, hctx0⟩ : ∃ x : Lscr.Ctx, x = { names := sF.names, constants := sF.consts.map constName, localFuncs := s.handlers.map (·.name), props := s.props, scriptGlobals := s.globals, params := [], localVars := [] } := ⟨_, rfl⟩
   have h0 : Ctx0 ctx0 sF (s.handlers.map (·.name)) := ⟨by rw [hctx0], by rw [hctx0], by rw [hctx0]⟩
-  have hfragH : ∀ h ∈ s.handlers, h.isMethod = false ∧ (∀ v ∈ Stmt.varsList .prop h.body, ctx0.props.contains v = true) ∧
-      ∀ g ∈ Stmt.varsList .glob h.body, g ∈ s.globals := by
+  have hfragH : ∀ h ∈ s.handlers, FlowOk B F h ∧ h.isMethod = false ∧ (∀ v ∈ Stmt.varsList .prop h.body, ctx0.props.contains v = true) := by
     intro h hh
-    simp only [FragScript, Bool.and_eq_true, List.all_eq_true] at hf
-    obtain ⟨h1, _, _, _, h5, h6⟩ := fragH_spec s h (hf.2 h hh)
-    exact ⟨h1, fun v hv => by simpa [hctx0] using h6 v hv, h5⟩
-  obtain ⟨regs', fs, hpf, hrels⟩ := parseFuncs_ok ctx0 L.bytes L.frbOff sF (s.handlers.map (·.name)) s.globals h0 s.handlers hcs hH hfragH 0
+    obtain ⟨_, h0', h1, h6⟩ := hHs h hh
+    exact ⟨h0', h1, fun v hv => by simpa [hctx0] using h6 v hv⟩
+  obtain ⟨regs', fs, hpf, hrels⟩ := parseFuncs_okg B F ctx0 L.bytes L.frbOff sF (s.handlers.map (·.name)) s.globals h0 s.handlers hcs hH hfragH 0
     (by
       intro j hc hj
       refine ⟨blockOff hcs 92 j, by simpa using L.at_record j hc hj, L.at_block j hc hj, ?_⟩
@@ -156,5 +176,16 @@ theorem parse_link (o : Options) (s : Spec.Script) (c : Compiled) (hf : FragScri
   have e0 : ((L.frbOff + 42 * 0 : Nat) : Int) = (L.frbOff : Int) := by simp
   rw [e0] at hpf
   simp only [hpf, List.nil_append, pure, Except.pure, Except.map]
+
+/-- **bytes → tree** on the fragment `FragScript` -/
+theorem parse_link (o : Options) (s : Spec.Script) (c : Compiled) (hf : FragScript s = true) (hcmp : compile o s = .ok c)
+    (hasc : ∀ n ∈ c.names, asciiName n = true) (hlen : c.names.length < 32768) :
+    ∃ t, Lscr.parseScript c.lscr c.lnam = .ok t ∧ ScriptRel s t ∧ t.scrNum = toSigned 16 (o.scrNum % 65536) := by
+  have hfac : s.factory = [] := (fragScript_spec' s hf).1
+  obtain ⟨t, h1, h2, h3⟩ := parse_linkg (B₀ (s.handlers.map (·.name))) (F₀ (s.handlers.map (·.name))) o s c hfac (by
+    intro h hh
+    obtain ⟨hm, _, _, hb, hp, _⟩ := fragH_spec s h ((fragScript_spec' s hf).2 h hh)
+    exact ⟨bodyRun₀ _ h hb, flowOk₀ _ h, hm, hp⟩) hcmp hasc hlen
+  exact ⟨t, h1, h2.toScriptRel, h3⟩
 
 end Drx.Link
